@@ -26,6 +26,7 @@ func checkC02(c *Ctx) {
 	c.Rule("C02/R10", "every other line reaches the recogniser: each path through one iteration of the scanning loop calls one of the three line parsers (benchmark, unit, key/value); no extra pre-test decides that a line cannot be configuration")
 	c.Rule("C02/R11", "malformed unit lines: a unit metadata field is recorded only on paths that established a non-empty key (text before '=')")
 	c.Rule("C02/R9", "measurements: each measurement is recorded under Tidy's unit with the pair as written kept alongside exactly when the unit was rewritten (string comparison of the units; same rule as C04/R1)")
+	c.Rule("C02/R17", "what may stand inside a configuration key is decided by unicode.IsSpace and unicode.IsUpper, for ASCII too: one step of the key scan, evaluated for twelve sample bytes, refuses exactly the space and upper-case ones")
 	c.Rule("C02/R16", "the value of a configuration line is the rest of the line: what parseKeyValueLine returns as the value is a suffix of the line (no upper bound, no trimming on the right)")
 	c.Rule("C02/R15", "a configuration line with a value files its key as file configuration: in Reader.Scan every path from the not-deleting branch to the common continuation passes ensureConfig(key, true)")
 	c.Rule("C02/R14", "unit-metadata lines: a line reaches parseUnitLine only where its first field was compared, whole, with \"Unit\"; the loop over the line's key=value pairs is left only where a field's length was tested")
@@ -49,6 +50,7 @@ func checkC02(c *Ctx) {
 	c02UnitLines(c, p)
 	c02ConfigLineRecorded(c, p)
 	c02ValueIsTheRest(c, p)
+	c02KeyCharacters(c, p)
 	// R6: reuse the sibling rule
 	sub := newCtx(c.Prop, c.Tier)
 	sub.RepoDir, sub.VerifDir, sub.HomeDir = c.RepoDir, c.VerifDir, c.HomeDir
